@@ -481,7 +481,7 @@ impl Parser {
                 let (pname, ptype) = extract(x, self.current_is(Operator::Comma));
                 if pname.is_some() && (ptype.is_some() || !self.current_is(Operator::BarackRight)) {
                     self.goback(start);
-                    let params = self.type_parameters()?;
+                    let (params, _) = self.parse_type_parameters()?;
                     let alias = self.skipped(Operator::Assign)?;
                     let typ = self.type_()?;
                     return Ok(ast::TypeSpec { docs, alias, name, typ, params });
@@ -1429,10 +1429,6 @@ impl Parser {
     /// ParameterList  = ParameterDecl { "," ParameterDecl } .
     fn parameters(&mut self) -> Result<ast::FieldList> {
         self.params_list(Operator::ParenLeft, Operator::ParenRight)
-    }
-
-    fn type_parameters(&mut self) -> Result<ast::FieldList> {
-        self.params_list(Operator::BarackLeft, Operator::BarackRight)
     }
 
     fn params_list(&mut self, open: Operator, close: Operator) -> Result<ast::FieldList> {
